@@ -77,6 +77,7 @@ type Contract struct {
 	Trusted     bool             // contract assumed, body not checked (listed in evidence)
 	Loops       map[int]LoopSpec // loop ordinal (by header block index order) -> spec
 	Callbacks   map[string]string // parameter name -> ghost set name
+	GhostCalls  map[string]string // callee -> ghost set name
 	Reveal      []string
 	Traverses   []Traverse
 	Resets      []Reset
